@@ -113,21 +113,21 @@ fn iri_authority_body<const N: usize>() {
     cover!(b.len() > 2 && b[0] >= 0xE0, "host starting with a 3-4 byte scalar");
 }
 
-// @h prop=C03,C20 tier=quick kind=check bound="uri::Authority text <= 12 bytes" encodes="parse::{user_info_or_host,find_user_info,host,find_host,port,find_port};AuthorityImpl::{parts,user_info,host,port};uri::Authority::parts"
+// @h prop=C03,C20:thorough tier=quick kind=check bound="uri::Authority text <= 12 bytes" encodes="parse::{user_info_or_host,find_user_info,host,find_host,port,find_port};AuthorityImpl::{parts,user_info,host,port};uri::Authority::parts"
 #[cfg_attr(kani, kani::proof)]
 #[cfg_attr(kani, kani::unwind(14))]
 pub fn c03_uri_authority_n12() {
     uri_authority_body::<12>()
 }
 
-// @h prop=C03,C20 tier=thorough kind=check timeout=2400 bound="uri::Authority text <= 16 bytes" encodes="same as c03_uri_authority_n12"
+// @h prop=C03,C20:thorough tier=thorough kind=check timeout=2400 bound="uri::Authority text <= 16 bytes" encodes="same as c03_uri_authority_n12"
 #[cfg_attr(kani, kani::proof)]
 #[cfg_attr(kani, kani::unwind(18))]
 pub fn c03_uri_authority_n16() {
     uri_authority_body::<16>()
 }
 
-// @h prop=C03,C20 tier=quick kind=check bound="iri::Authority text <= 10 bytes (UTF-8)" encodes="same parse::* via AuthorityImpl for iri::Authority;iri::Authority::parts"
+// @h prop=C03,C20:thorough tier=quick kind=check bound="iri::Authority text <= 10 bytes (UTF-8)" encodes="same parse::* via AuthorityImpl for iri::Authority;iri::Authority::parts"
 #[cfg_attr(kani, kani::proof)]
 #[cfg_attr(kani, kani::unwind(12))]
 pub fn c03_iri_authority_n10() {
